@@ -838,6 +838,33 @@ def edges(rng, case, idx):
                     viol(['C16'], f'C16:undeclared_object_accepted:plate_of_another_geometry:{label}', {'declared': [8, 12], 'given': [other.n_rows, other.n_columns]})
                 elif not isinstance(exc, ValueError):
                     viol(['C16'], f'C16:undeclared_object_refused_with:{type(exc).__name__}', {'where': label})
+            # (round 17, seeded s-C07-i) ... nor is a plate of the same shape whose labels name other wells: a step declared on
+            # its row 'drug' is refused - replayed on the declared plate it would act on the wells of row 'ctrl'
+            M.bucket(case['prop'] + '/edge/E26_a_plate_of_the_same_shape_with_other_labels_under_a_declared_name')
+            rows_ = rng.choice([['ctrl', 'drug'], ['lo', 'mid', 'hi'], ['x', 'y']])
+            cols_ = rng.choice([3, ['t0', 't1', 't2']])
+            assay = pp.Plate('assay', '100 uL', rows=rows_, columns=cols_)
+            twin = pp.Plate('assay', '100 uL', rows=list(reversed(rows_)), columns=cols_)
+            last = rows_[-1]
+            for label, fn in (('transfer_into_its_row', lambda r_: r_.transfer(w, twin[last], '20 uL')), ('fill_to_its_row', lambda r_: r_.fill_to(twin[last], water, '20 uL')),
+                              ('remove_from_its_row', lambda r_: r_.remove(twin[last], water))):
+                r = pp.Recipe().uses(assay, w)
+                if label.startswith('remove'):
+                    r.transfer(w, assay, '5 uL')
+                _, exc = attempt(lambda: fn(r))
+                if exc is not None:
+                    if not isinstance(exc, ValueError):
+                        viol(['C16', 'C07'], f'C16:undeclared_object_refused_with:{type(exc).__name__}', {'where': label})
+                    continue
+                res, exc = attempt(lambda: r.bake())
+                if exc is None:
+                    got = res['assay']
+                    i_last = rows_.index(last)
+                    acted = [i_ for i_ in range(len(rows_))
+                             if any((wl.contents.get(water, 0.0) > 0) != (label.startswith('remove')) for wl in got.wells[i_])]
+                    if acted != [i_last]:
+                        viol(['C07', 'C16'], f'C07:step_declared_on_a_row_label_acts_on_other_wells:{label}',
+                             {'declared_rows': rows_, 'given_rows': list(reversed(rows_)), 'row_named': last, 'rows_acted_on': [rows_[i_] for i_ in acted]})
             M.note_nontrivial(case['prop'], ('E26', idx))
         elif fam == 26:
             # ---- E27 (meant for L / mol storage; true under every configuration)
@@ -1021,6 +1048,20 @@ def edges(rng, case, idx):
                         viol(['C09'], 'C09:net_change_of_zero_refused_as_a_decrease:solution_from_step', {'stock': contents_, 'solution': [target_, tot_], 'answer': res, 'exc': repr(exc)[:120]})
             # (round 17) a solution step whose solvent container lists the solute with an amount of zero adds all of it from
             # outside: that charge is no rounding noise, and a real loss elsewhere in the timeframe is still refused
+            # (round 17, second wave) a solution made from a source at the source's own concentration needs no solvent: the
+            # solvent, too, is only moved - source + new solution answer 0 for it
+            M.bucket(case['prop'] + '/edge/E29_a_solution_from_step_at_the_own_concentration')
+            for w_ul, take in ((19, '10 uL'), (19, '2 uL'), (49, '15 uL'), (79, '40 uL'), (29, '7 uL'), (39, '13 uL')):
+                st_ = C('stock', '1 mL', [(salt_, '1 mg'), (water, f'{w_ul} uL')])
+                r = pp.Recipe().uses(st_)
+                new_ = r.create_solution_from(st_, salt_, f"{st_.get_concentration(salt_, 'mg/uL')} mg/uL", water, take, name='aliquot')
+                _, exc = attempt(lambda: r.bake())
+                if exc is None:
+                    for sub_ in (water, salt_):
+                        res, exc = attempt(lambda: r.get_substance_used(sub_, 'all', 'umol', [st_, new_]))
+                        if exc is not None or abs(res) > 1e-3:
+                            viol(['C09'], 'C09:net_change_of_zero_refused_as_a_decrease:solution_from_step:own_concentration', {'stock_water_uL': w_ul, 'taken': take, 'substance': sub_.name, 'answer': res, 'exc': repr(exc)[:120]})
+                            break
             M.bucket(case['prop'] + '/edge/E29_a_loss_next_to_a_solution_step_with_a_zero_entry')
             for kind_ in ('declared with zero', 'emptied and refilled', 'plain'):
                 stock_ = C('stock', initial_contents=[(water, '50 mL'), (salt_, '10 mmol')])
